@@ -3,7 +3,7 @@
 // This source code is licensed under the MIT license found in the
 // LICENSE file in the root directory of this source tree.
 
-use alloc::{string::ToString, vec::Vec};
+use alloc::{format, string::ToString, vec::Vec};
 
 use math::{StarkField, ToElements};
 use utils::{ByteReader, ByteWriter, Deserializable, DeserializationError, Serializable};
@@ -142,6 +142,13 @@ impl Deserializable for Context {
             return Err(DeserializationError::InvalidValue(
                 "field modulus cannot be an empty value".to_string(),
             ));
+        }
+        // a context with this many modulus bytes cannot be serialized (see `write_into()`)
+        if num_modulus_bytes >= u8::MAX as usize {
+            return Err(DeserializationError::InvalidValue(format!(
+                "field modulus must be shorter than {} bytes",
+                u8::MAX
+            )));
         }
         let field_modulus_bytes = source.read_vec(num_modulus_bytes)?;
 
